@@ -1,4 +1,5 @@
 import MitmVerif.Model.C19
+import MitmVerif.Model.C13_Nameprep
 import Driver.Proto
 open MitmVerif Driver MitmVerif.C19
 
@@ -75,20 +76,21 @@ def top? (s : String) : Option Top :=
     | ["rev", x] => (scheme? x).map .reverse
     | _ => none
 
-/-- 17 configuration fields, then the rest -/
+/-- 17 configuration fields, then the rest (field 8, formerly the list of valid host names, is no longer used:
+    `check.is_valid_host` is C13's complete transcription `Np.validHostFull`) -/
 def parseCfg : List String → Option (NCfg LitPat × Env LitPat × List String)
   | tcp :: ig :: al :: wg :: peer :: addr :: csni :: valid :: quic :: top :: showI :: raw :: th :: uh ::
       aset :: ahttp :: qv1 :: rest =>
     match flag? tcp, pats? ig, pats? al, flag? wg, addr? peer, addr? addr, optHex? csni with
     | some tcp, some ig, some al, some wg, some peer, some addr, some csni =>
       match mapM? hexOr (splitList valid), quic? quic, top? top, flag? showI, flag? raw with
-      | some valid, some quic, some top, some showI, some raw =>
-        match pats? th, pats? uh, flag? aset, flag? ahttp, flag? qv1 with
-        | some th, some uh, some aset, some ahttp, some qv1 =>
+      | some _, some quic, some top, some showI, some raw =>
+        match pats? th, pats? uh, optHex? aset, some ahttp, flag? qv1 with
+        | some th, some uh, some alpn, some _, some qv1 =>
           some ({ tcp := tcp, ignorePats := ig, allowPats := al, wireguard := wg, peername := peer, address := addr,
                   clientSni := csni, top := top, showIgnored := showI, rawtcp := raw, tcpHosts := th, udpHosts := uh,
-                  alpnSet := aset, alpnHttp := ahttp, quicV1 := qv1 },
-                { rx := litSearch, validHost := fun h => valid.contains h, quic := fun _ => quic }, rest)
+                  alpnSet := (alpnFlags alpn).1, alpnHttp := (alpnFlags alpn).2, quicV1 := qv1 },
+                { rx := litSearch, validHost := C13.Np.validHostFull, quic := fun _ => quic }, rest)
         | _, _, _, _, _ => none
       | _, _, _, _, _ => none
     | _, _, _, _, _, _, _ => none
